@@ -79,14 +79,18 @@ RowMatch(o, sp, kind) ==
   ELSE /\ o.w = sp.w
        /\ (o.u = sp.u \/ (o.u = -3 /\ kind = "upd" /\ OnlyCare))
 ImgKind(kd) == IF kd = "upsu" THEN "upd" ELSE kd
+\* The recorded images are those of the specification, row by row.  How the images of ONE statement are
+\* grouped into undo items and in which order they appear is the implementation's business (an upsert records
+\* its updated and its inserted rows as two items); across statements the item order follows the statement order.
 ImagesMatch(sp, ob) ==
   /\ Len(sp) = Len(ob)
-  /\ \A i \in 1..Len(sp) :
-       /\ ob[i].key = sp[i].k
-       /\ ob[i].kind = ImgKind(sp[i].kind)
-       /\ ob[i].stmt = sp[i].s
-       /\ RowMatch(ob[i].before, sp[i].before, sp[i].kind)
-       /\ RowMatch(ob[i].after, sp[i].after, sp[i].kind)
+  /\ \E pi \in Permutations(1..Len(sp)) :
+       /\ \A i \in 1..Len(sp) :
+            /\ ob[pi[i]].key = sp[i].k
+            /\ ob[pi[i]].kind = ImgKind(sp[i].kind)
+            /\ RowMatch(ob[pi[i]].before, sp[i].before, sp[i].kind)
+            /\ RowMatch(ob[pi[i]].after, sp[i].after, sp[i].kind)
+       /\ \A i, j \in 1..Len(sp) : sp[i].s < sp[j].s => ob[pi[i]].stmt < ob[pi[j]].stmt
 TImages == /\ IsEv("Images")
            /\ Trace[l].decoded = TRUE
            /\ ImagesMatch(imgs[Trace[l].b], Trace[l].imgs)
